@@ -12,38 +12,7 @@ using namespace sim;
 using Sbx = rlbox::rlbox_sim_sandbox;
 using Sandbox = rlbox::rlbox_sandbox<Sbx>;
 
-struct SimNode
-{
-  long tag;
-  SimNode* next;
-  int* data;
-  char name[8];
-  int* ptrs[3];
-  unsigned long long big;
-};
-struct GNode // guest (ILP32) image
-{
-  int32_t tag;
-  uint32_t next;
-  uint32_t data;
-  char name[8];
-  uint32_t ptrs[3];
-  uint64_t big;
-};
-static_assert(sizeof(GNode) == 40);
-
-#if defined(__clang__)
-#  pragma clang diagnostic ignored "-Wgnu-zero-variadic-macro-arguments"
-#endif
-#define sandbox_fields_reflection_simlib_class_SimNode(f, g, ...)              \
-  f(long, tag, FIELD_NORMAL, ##__VA_ARGS__) g()                                \
-  f(SimNode*, next, FIELD_NORMAL, ##__VA_ARGS__) g()                           \
-  f(int*, data, FIELD_NORMAL, ##__VA_ARGS__) g()                               \
-  f(char[8], name, FIELD_NORMAL, ##__VA_ARGS__) g()                            \
-  f(int* [3], ptrs, FIELD_NORMAL, ##__VA_ARGS__) g()                           \
-  f(unsigned long long, big, FIELD_NORMAL, ##__VA_ARGS__) g()
-#define sandbox_fields_reflection_simlib_allClasses(f, ...) f(SimNode, simlib, ##__VA_ARGS__)
-rlbox_load_structs_from_library(simlib);
+#include "../sim/simnode.hpp"
 
 template<class T>
 using TP = rlbox::tainted<T*, Sbx>;
